@@ -858,7 +858,9 @@ func c19atoms() (full, small, tiny []*c19ent) {
 	return
 }
 
-var c19keys = []c19key{{name: "a"}, {name: "b"}, {name: "../x"}, {name: "../keep"}, {name: "a/b"}, {name: ""}, {name: "."}, {isNum: true}}
+// Keys containing "/" (e.g. a/b) and "." are deliberately not in the alphabet: neither the property nor the docs say
+// whether such keys are valid (the repository's own tests use "bar/baz" as a nested path), so no verdict is possible.
+var c19keys = []c19key{{name: "a"}, {name: "b"}, {name: "../x"}, {name: "../keep"}, {name: ""}, {isNum: true}}
 
 // ---------------------------------------------------------------- the check
 
